@@ -200,6 +200,16 @@ impl ModelEvaluator {
   pub fn decision_evaluator(&self) -> Result<RwLockReadGuard<DecisionEvaluator>> {
     self.decision_evaluator.read().map_err(err_read_lock_failed)
   }
+  /// Verification hook: adds a decision with the specified name whose evaluation always panics
+  /// (an evaluation that fails in its own thread must not spoil the shared evaluator).
+  #[cfg(dmntk_verif)]
+  pub fn verif_add_failing_decision(&self, name: &str) {
+    let id = format!("_verif_failing_{}", name);
+    if let Ok(mut decision_evaluator) = self.decision_evaluator.write() {
+      decision_evaluator.verif_add_failing_decision(&id, Name::from(name));
+    }
+    self.add_invocable_decision(name, &id);
+  }
   /// Evaluates an invocable with specified name.
   pub fn evaluate_invocable(&self, invocable_name: &str, input_data: &FeelContext) -> Value {
     if let Ok(invocable_by_name) = self.invocable_by_name.read() {
